@@ -55,7 +55,7 @@ func c05Size(r *rand.Rand) int {
 // srchModelBudget: the extracted model evaluates about 400 nodes a second; histories with more nodes are judged by the oracle only.
 func srchModelBudget(tier string) int {
 	if tier == "thorough" {
-		return 12000
+		return 8000
 	}
 	return 2500
 }
@@ -225,7 +225,7 @@ func bucket(n int) string {
 
 // ---- clause 2: with a table; fresh engines and histories ----
 
-var c05TableMems = []int64{64, 96, 160, 400, 400, 1000, 4000, 1 << 16, 1 << 16, 0}
+var c05TableMems = []int64{16, 64, 96, 160, 400, 400, 1000, 4000, 1 << 16, 1 << 16, 0} // 16 bytes: too small for one entry = no table
 
 func c05Table(tier string, id int, r *rand.Rand, o *srchOut) {
 	thorough := tier == "thorough"
@@ -308,6 +308,9 @@ func c05Table(tier string, id int, r *rand.Rand, o *srchOut) {
 		if repeat {
 			o.stat("table_calls_repeated_position", 1)
 		}
+		if rr.tableWrittenAfterCancel {
+			o.printf("ORACLE-FAIL cancel-writes-table | %s %s | the transposition table changed after the cancel flag was set | a cancelled search leaves no trace of the part that is discarded", cid, desc)
+		}
 		if len(rr.pv) == 0 {
 			if !rr.st.Canceled {
 				o.printf("ORACLE-FAIL no-result | %s %s | no line, not cancelled | an uncancelled search of a live position returns a line", cid, desc)
@@ -346,9 +349,9 @@ func runC05(c *ctx) {
 			return
 		}
 	}
-	nA, nB := 260, 340
+	nA, nB := 700, 900
 	if tier == "thorough" {
-		nA, nB = 260*c05ThoroughScale, 340*c05ThoroughScale
+		nA, nB = 700*c05ThoroughScale, 900*c05ThoroughScale
 	}
 	// ids [0,nA): clause 1; [nA, nA+nB): clause 2
 	srchRun(c, 5, nA+nB, only, func(id int, r *rand.Rand, o *srchOut) {
@@ -361,4 +364,4 @@ func runC05(c *ctx) {
 	_ = ai.WinThreshold
 }
 
-const c05ThoroughScale = 12
+const c05ThoroughScale = 4
